@@ -134,6 +134,17 @@ SrcExpr(cs, ps) ==
 
 \* a bare literal (possibly negated): its value is compared token against token even where the value domain of
 \* the machine ends (numbers beyond Lim evaluate to "uncomputed" on both sides)
+\* a comparison used as a number (operand of arithmetic, of a sign, argument of a function): outside the fragment of C01
+\* ("comparisons and AND/OR/NOT between them in IF conditions") and not type-correct BASIC09 (C07's caveat)
+RECURSIVE Unpar(_), CmpAsNumber(_)
+Unpar(tr) == IF tr[1] = "par" THEN Unpar(tr[2]) ELSE tr
+IsRelTree(tr) == LET u == Unpar(tr) IN u[1] = "bin" /\ IsRelOp(u[2])
+CmpAsNumber(tr) ==
+  CASE tr[1] = "bin" -> (tr[2] \in {"+", "-", "*", "/", "^"} /\ (IsRelTree(tr[3]) \/ IsRelTree(tr[4]))) \/ CmpAsNumber(tr[3]) \/ CmpAsNumber(tr[4])
+    [] tr[1] = "un" -> (tr[2] = "neg" /\ IsRelTree(tr[3])) \/ CmpAsNumber(tr[3])
+    [] tr[1] = "par" -> CmpAsNumber(tr[2])
+    [] tr[1] \in {"call", "idx"} -> \E k \in 1..Len(tr[3]) : IsRelTree(tr[3][k]) \/ CmpAsNumber(tr[3][k])
+    [] OTHER -> FALSE
 IsLiteralExpr(e) == e[1] = "num" \/ (e[1] = "par" /\ e[2][1] = "num") \/ (e[1] = "un" /\ e[3][1] = "num")
 Verdict(cs) ==
   LET vd == JudgeAll(cs) IN
@@ -147,7 +158,12 @@ Verdict(cs) ==
        IF ~ps.sok THEN vd
        ELSE LET e == SrcExpr(cs, ps)
                 sit == IF e[1] = "nil" THEN "" ELSE Situation(e) IN
-       IF vd.clause = "parses" THEN [vd EXCEPT !.key = @ \o SrcSituation(cs, ps)]
+       IF e[1] # "nil" /\ CmpAsNumber(e) THEN [vd EXCEPT !.ok = TRUE, !.clause = "unjudged", !.key = "comparison-used-as-a-number", !.detail = vd.key]
+       ELSE IF vd.clause = "parses" THEN [vd EXCEPT !.key = @ \o SrcSituation(cs, ps)]
+       \* a recorded unary-operator situation in the source: also where the trees agree but BASIC09 typing fails (LNOT of a
+       \* comparison), and inside PRINT items
+       ELSE IF sit # "" /\ (vd.clause = "target-error" \/ (cs.slot = "a1p" /\ vd.clause = "obs" /\ RegroupKey(cs, ps) # ""))
+            THEN [vd EXCEPT !.clause = "regroup", !.key = "regroup:src=" \o sit, !.detail = vd.key \o " | " \o @]
        ELSE IF cs.slot = "a1p" /\ vd.clause = "obs" THEN vd
        ELSE IF vd.clause \in {"temp-defined", "initial", "arity", "operand"} THEN vd
        ELSE LET rk == RegroupKey(cs, ps) IN
